@@ -53,6 +53,8 @@ func verifSharedConfig(withInfo bool) *nfpm.Config {
 		{Source: f2, Destination: "/etc/tool.opt", Type: files.TypeConfigMissingOK},
 		{Destination: "/var/lib/tool", Type: files.TypeDir, FileInfo: &files.ContentFileInfo{}},
 		{Destination: "/var/run/tool.pid", Type: files.TypeRPMGhost},
+		// owner, group and mtime configured, mode left to the source file: only the mode is defaulted
+		{Source: f3, Destination: "/usr/share/doc/tool/NOTES", Type: files.TypeRPMReadme, FileInfo: &files.ContentFileInfo{Owner: "o", Group: "g", MTime: mt}},
 		// a directory whose file_info is spelled out completely (nothing left to default)
 		{Destination: "/var/cache/tool", Type: files.TypeDir, FileInfo: &files.ContentFileInfo{Owner: "o", Group: "g", Mode: 0o750, MTime: mt}},
 	}
@@ -79,10 +81,14 @@ func verifIsolation(op, format string, withInfo bool, prop string) {
 	// path with its own writer objects)
 	comp := v.NondetChoice("compression.variant", 4)
 	verifCollide = v.NondetBool("rpm.only.collision")
+	noMaintainer := v.NondetBool("maintainer.empty") // deb and ipk then print a deprecation notice
 	verifCfg := func() *nfpm.Config {
 		cfg := verifSharedConfig(withInfo)
 		cfg.Deb.Compression = []string{"", "zstd", "xz", "none"}[comp]
 		cfg.RPM.Compression = []string{"", "zstd", "xz", "lzma"}[comp]
+		if noMaintainer {
+			cfg.Maintainer = ""
+		}
 		return cfg
 	}
 	cfg := verifCfg()
@@ -90,23 +96,9 @@ func verifIsolation(op, format string, withInfo bool, prop string) {
 	if prop == "C12" {
 		v.WatchGlobals()
 	}
-	p := Packager(format)
-	switch op {
-	case "validate":
-		cfg.Validate()
-	case "filename":
-		info, err := cfg.Get(format)
-		if err == nil {
-			p.ConventionalFileName(nfpm.WithDefaults(info))
-		}
-	case "package":
-		info, err := cfg.Get(format)
-		if err == nil {
-			var buf bytes.Buffer
-			p.Package(nfpm.WithDefaults(info), &buf)
-		}
-	}
 	if prop == "C12" && !v.Symbolic() {
+		// (run BEFORE the sequential operation below: state that is only written on
+		// first use in a process would otherwise be warm already)
 		// native replay: the same operation from the same configuration for another
 		// format, and for the same format from independent settings, concurrently,
 		// under `go test -race` (the driver looks for the detector's report)
@@ -136,6 +128,22 @@ func verifIsolation(op, format string, withInfo bool, prop string) {
 		<-done
 		<-done
 		<-done
+	}
+	p := Packager(format)
+	switch op {
+	case "validate":
+		cfg.Validate()
+	case "filename":
+		info, err := cfg.Get(format)
+		if err == nil {
+			p.ConventionalFileName(nfpm.WithDefaults(info))
+		}
+	case "package":
+		info, err := cfg.Get(format)
+		if err == nil {
+			var buf bytes.Buffer
+			p.Package(nfpm.WithDefaults(info), &buf)
+		}
 	}
 	v.Reach(prop + ".isolation.ran")
 	v.Assert(!v.Changed("config"), format+"-"+op+"-leaves-the-configuration-unchanged")
